@@ -515,7 +515,8 @@ Section Arith.
     then set_var R_OFFSET (cint pos)
     else fail ESeek None.
 
-  (* peek_bits after the D12 repair: start + n is checked *)
+  (* the reading words push first and move afterwards (repair of the stack-limit defect);
+     peek_bits after the D12 repair: start + n is checked *)
   Definition peek_bits (n : Z) : M cbs :=
     let* s := current_input in
     let* start := current_offset in
@@ -540,29 +541,29 @@ Section Arith.
 
   Definition read_bits (n : Z) : M unit :=
     let* s := peek_bits n in
-    move_offset_checked (Z.of_nat (cend s)) ;; push_data (CBits s).
+    push_data (CBits s) ;; move_offset_checked (Z.of_nat (cend s)).
   Definition read_unsigned (n : Z) (o : order) : M unit :=
     let* s := peek_bits n in
     if (127 <? clen s)%nat then fail EOverflow None
     else
       let x := to_uint o s in
-      move_offset_checked (Z.of_nat (cend s)) ;;
-      push_data (with_tags (cint x) (num_tags s o)).
+      push_data (with_tags (cint x) (num_tags s o)) ;;
+      move_offset_checked (Z.of_nat (cend s)).
   Definition read_signed (n : Z) (o : order) : M unit :=
     let* s := peek_bits n in
     if (128 <? clen s)%nat then fail EOverflow None
     else
       let x := to_int o s in
-      move_offset_checked (Z.of_nat (cend s)) ;;
-      push_data (with_tags (cint x) (num_tags s o)).
+      push_data (with_tags (cint x) (num_tags s o)) ;;
+      move_offset_checked (Z.of_nat (cend s)).
   Definition read_float (n : Z) (o : order) : M unit :=
     let* s := peek_bits n in
     if n =? 32 then
-      move_offset_checked (Z.of_nat (cend s)) ;;
-      push_data (with_tags (CReal (f_of_f32 fo (to_fbits 4 o s))) (num_tags s o))
+      push_data (with_tags (CReal (f_of_f32 fo (to_fbits 4 o s))) (num_tags s o)) ;;
+      move_offset_checked (Z.of_nat (cend s))
     else if n =? 64 then
-      move_offset_checked (Z.of_nat (cend s)) ;;
-      push_data (with_tags (CReal (to_fbits 8 o s)) (num_tags s o))
+      push_data (with_tags (CReal (to_fbits 8 o s)) (num_tags s o)) ;;
+      move_offset_checked (Z.of_nat (cend s))
     else fail EFloatLen None.
 
   (* widths the packing words accept without risking an allocation failure *)
@@ -738,7 +739,7 @@ Section Arith.
     let* c := pop_data in let* pat := m_bits c in
     let* s := peek_bits (Z.of_nat (clen pat)) in
     if negb (eq_with s pat) then fail EMatch None
-    else move_offset_checked (Z.of_nat (cend s)) ;; push_data (CBits s).
+    else push_data (CBits s) ;; move_offset_checked (Z.of_nat (cend s)).
 
   Definition w_emit : M unit :=
     let* c := pop_data in let* bs := m_bits c in
@@ -761,8 +762,9 @@ Section Arith.
     else
       let len := nul_len (iter8 s) 0%nat in
       let ss := mkcbs (cstart s) (cstart s + len) (cdata s) in
-      move_offset_checked (Z.of_nat (cstart s + len)) ;; ret ss.
-  Definition w_nulbytestr : M unit := let* b := nulbytestr_read in push_data (CBits b).
+      ret ss.
+  Definition w_nulbytestr : M unit :=
+    let* b := nulbytestr_read in push_data (CBits b) ;; move_offset_checked (Z.of_nat (cend b)).
   (* char::from_u32 of a byte, UTF-8 encoded *)
   Definition latin1_utf8 (x : N) : string :=
     if (x <? 128)%N then String (ascii_of_N x) EmptyString
@@ -773,7 +775,7 @@ Section Arith.
     | (x, _) :: r => if (x =? 0)%N then EmptyString else String.append (latin1_utf8 x) (cstr_chars r)
     end.
   Definition w_cstr : M unit :=
-    let* b := nulbytestr_read in push_data (CStr (cstr_chars (iter8 b))).
+    let* b := nulbytestr_read in push_data (CStr (cstr_chars (iter8 b))) ;; move_offset_checked (Z.of_nat (cend b)).
 
   (* ---------- text encodings (base_ext.rs) ---------- *)
   Definition string_of_codes (l : list N) : string :=
